@@ -211,6 +211,84 @@ def always_raises(stmts):
     return bool(stmts) and isinstance(stmts[-1], ast.Raise)
 
 
+def _is_superset_of(value, kw):
+    """dict(kw, ...), dict(**kw), {**kw, ...}, kw.copy() / dict(kw): every key of kw survives."""
+    if isinstance(value, ast.Call):
+        f = value.func
+        if isinstance(f, ast.Name) and f.id == 'dict':
+            if value.args and isinstance(value.args[0], ast.Name) and value.args[0].id == kw:
+                return True
+            if any(k.arg is None and isinstance(k.value, ast.Name) and k.value.id == kw for k in value.keywords):
+                return True
+        if isinstance(f, ast.Attribute) and f.attr == 'copy' and isinstance(f.value, ast.Name) and f.value.id == kw:
+            return True
+    if isinstance(value, ast.Dict):
+        return any(k is None and isinstance(v, ast.Name) and v.id == kw for k, v in zip(value.keys, value.values))
+    return False
+
+
+def _establishes_empty(test, kw):
+    """`len(kw) == 0`, `not kw`, `kw == {}`: in the true branch kw holds no name."""
+    if isinstance(test, ast.UnaryOp) and isinstance(test.op, ast.Not) and isinstance(test.operand, ast.Name) \
+            and test.operand.id == kw:
+        return True
+    if isinstance(test, ast.Compare) and len(test.ops) == 1 and isinstance(test.ops[0], ast.Eq):
+        a, b = test.left, test.comparators[0]
+        for x, y in ((a, b), (b, a)):
+            if isinstance(x, ast.Call) and isinstance(x.func, ast.Name) and x.func.id == 'len' and len(x.args) == 1 \
+                    and isinstance(x.args[0], ast.Name) and x.args[0].id == kw \
+                    and isinstance(y, ast.Constant) and y.value == 0:
+                return True
+            if isinstance(x, ast.Name) and x.id == kw and isinstance(y, ast.Dict) and not y.keys:
+                return True
+    return False
+
+
+def kwargs_dropped(fn, kw, call):
+    """First construct, textually before the base-constructor call, that can remove a received name from **kw."""
+    limit = (call.lineno, call.col_offset)
+
+    def walk(stmts, empty):
+        for st in stmts:
+            if (st.lineno, st.col_offset) >= limit:
+                return None
+            if isinstance(st, ast.If):
+                r = walk(st.body, empty or _establishes_empty(st.test, kw)) or walk(st.orelse, empty)
+                if r:
+                    return r
+                continue
+            if isinstance(st, (ast.For, ast.While, ast.With, ast.Try)):
+                for blk in (getattr(st, 'body', []), getattr(st, 'orelse', []), getattr(st, 'finalbody', [])):
+                    r = walk(blk, empty)
+                    if r:
+                        return r
+                for h in getattr(st, 'handlers', []):
+                    r = walk(h.body, empty)
+                    if r:
+                        return r
+                continue
+            if isinstance(st, ast.Assign):
+                for t in st.targets:
+                    if isinstance(t, ast.Name) and t.id == kw and not empty and not _is_superset_of(st.value, kw):
+                        return st, 'rebinds `%s` to `%s`' % (kw, src_of(st.value)[:60].replace('\n', ' '))
+            if isinstance(st, ast.Delete):
+                for t in st.targets:
+                    if isinstance(t, ast.Name) and t.id == kw:
+                        return st, 'deletes `%s`' % kw
+                    if isinstance(t, ast.Subscript) and isinstance(t.value, ast.Name) and t.value.id == kw \
+                            and not isinstance(t.slice, ast.Constant):
+                        return st, 'deletes a computed key of `%s`' % kw
+            for n in ast.walk(st):
+                if isinstance(n, ast.Call) and isinstance(n.func, ast.Attribute) and isinstance(n.func.value, ast.Name) \
+                        and n.func.value.id == kw and not empty:
+                    if n.func.attr in ('clear', 'popitem'):
+                        return st, 'calls `%s.%s()`' % (kw, n.func.attr)
+                    if n.func.attr == 'pop' and n.args and not isinstance(n.args[0], ast.Constant):
+                        return st, 'pops a computed key of `%s`' % kw
+        return None
+    return walk(fn.body, False)
+
+
 def check_subclass_ctor(model, ci, res):
     if '__call__' in ci.methods:
         res.add(_f('C05.ctor-contract', ci.methods['__call__'], 'overrides __call__',
@@ -234,6 +312,17 @@ def check_subclass_ctor(model, ci, res):
         res.add(_f('C05.super-init', init, 'kwargs not forwarded',
                    '%s.__init__ does not forward **%s to the base constructor' % (ci.name, kw), call))
         return
+    if kw is not None:
+        # the forwarded dict must still hold every name the caller gave: no rebinding of **kw (other than to a superset, or
+        # where a guard has established that it is empty) and no wholesale removal before the base constructor is reached
+        bad = kwargs_dropped(init.node, kw, call)
+        if bad is not None:
+            node, what = bad
+            res.add(_f('C05.super-init', init, 'received keywords dropped before forwarding',
+                       "%s.__init__ %s before **%s reaches ExactSolver.__init__: a name the caller gave can be dropped there, so an "
+                       "unknown (or misspelt) parameter name is accepted silently instead of raising ValueError"
+                       % (ci.name, what, kw), node))
+            return
     if kw is None:
         # no **kwargs at all: an unknown (or a documented) parameter name given as a keyword is a TypeError raised by the
         # call itself, before ExactSolver.__init__ can answer with the ValueError the property promises
